@@ -34,10 +34,10 @@ var substTable = map[string][]string{
 	"internal/poll_linux.go":       {"syscall", "sync"},
 	"internal/timer_linux.go":      {"syscall", "golang.org/x/sys/unix"},
 	"internal/socket_unix.go":      {"syscall", "golang.org/x/sys/unix", "time", "net"},
-	// "net/ipv4/multicast.go":        {"syscall"},
-	// "net/ipv4/multicast_linux.go":  {"syscall"},
-	// "multicast/peer.go":            {"syscall", "net"},
-	// "multicast/util.go":            {"net"},
+	"net/ipv4/multicast.go":        {"syscall"},
+	"net/ipv4/multicast_linux.go":  {"syscall"},
+	"multicast/peer.go":            {"syscall", "net"},
+	"multicast/util.go":            {"net"},
 	"bytes/mirrored_buffer.go":     {"syscall", "os"},
 	"bytes/util_linux.go":          {"syscall"},
 	"codec/websocket/stream.go":    {"sync"},
